@@ -29,6 +29,15 @@ class EqRes(wiring.Component):
         return hash(("EqRes", self.tag))
 
 
+class FalsyRes(wiring.Component):
+    """a resource object whose truth value is False (a container-like component that is empty)"""
+    def __init__(self):
+        super().__init__({})
+
+    def __len__(self):
+        return 0
+
+
 def enc_name(n):
     if n is None:
         return "-"
@@ -184,7 +193,11 @@ def gen_case(seed, idx, profile, k=None):
 
     used_names = []
 
+    deep_pool = [("bank", 0, x) for x in ("ctrl", "data", "stat", 0, 1)] + [("bank", 0, "ctrl", "lo"), ("bank", 1, "ctrl"), ("bank", 0)]
+
     def name():
+        if profile == "names" and rnd2.random() < 0.15:
+            return rnd2.choice(deep_pool)        # long names that share their first two parts
         if unique_names:          # C02/C03 histories: naming (almost) never decides acceptance
             ucount[0] += 1
             nm = ("n%d" % ucount[0],) if rnd.random() < 0.7 else ("n%d" % ucount[0], rnd.randrange(3))
@@ -196,6 +209,7 @@ def gen_case(seed, idx, profile, k=None):
 
     shared = []          # (child handle, sparse) of maps already used as a window once
 
+    bigtree = profile == "tree" and rnd2.random() < 0.08
     def populate(h, aw, dw, al, depth):
         nops = rnd.randint(2, 9 if profile != "alloc" else 14)
         for _ in range(nops):
@@ -248,6 +262,9 @@ def gen_case(seed, idx, profile, k=None):
             else:
                 caw = rnd.randint(1, aw) if profile != "names" else max(2, aw - 4)
                 mode = rnd.random() if profile != "names" else rnd.random() * 0.75
+                if bigtree and aw > 54:
+                    caw = rnd2.randint(54, aw - 1)          # a large window high up, mostly dense
+                    mode = 0.9 if rnd2.random() < 0.6 else mode
                 leaf = False
                 if mode < 0.55:
                     cdw, cal, sparse = dw, rnd.choice([0, 0, 1, 2]), rnd.choice([None, None, True, False])
@@ -299,7 +316,9 @@ def gen_case(seed, idx, profile, k=None):
                     span = max(1, (1 << caw) // ratio)
                     ops.append(("res", h, rid, ("tail%d" % ucount[0],), 1, waddr + span - 1 - rnd2.randrange(min(span, ratio - 1) or 1), None))
 
-    if big:
+    if bigtree:
+        aw = rnd2.choice([56, 60, 64])
+    elif big:
         aw = rnd.choice([16, 32, 64])
     elif profile == "names":
         aw = 20
@@ -309,6 +328,13 @@ def gen_case(seed, idx, profile, k=None):
     al = rnd.choice([0, 0, 1, 2]) if profile != "names" else 0
     root = new(aw, dw, al)
     populate(root, aw, dw, al, 3 if profile != "alloc" else 2)
+    if profile == "names" and rnd2.random() < 0.04:
+        # many names in one map (more than 32), then every one of them offered again: all must be refused
+        k = rnd2.choice([33, 34, 40, 65])
+        for j in range(k):
+            ops.append(("res", root, nres[0], ("many", j), 1, None, None)); nres[0] += 1
+        for j in range(k):
+            ops.append(("res", root, nres[0], ("many", j), 1, None, None)); nres[0] += 1
     if profile == "names":
         ops.append(("all", root))
     if profile == "tree":
@@ -316,6 +342,8 @@ def gen_case(seed, idx, profile, k=None):
         ops.append(("all", root))
         if aw <= 10:
             ops.append(("decodeall", root))
+        else:
+            ops.append(("probes", root))
         for rid in range(nres[0]):
             ops.append(("find", root, rid))
         for extra in range(3):
@@ -342,7 +370,14 @@ def run_impl(case):
     rnd = lib.random.Random(1)
     maps, keep = {}, []
     eqr = lib.random.Random(case["nres"] * 7919 + len(ops))
-    objs = [(EqRes(eqr.randrange(3)) if case["profile"] == "tree" and eqr.random() < 0.3 else Res()) for _ in range(case["nres"])]
+    def mkobj():
+        x = eqr.random()
+        if case["profile"] == "tree" and x < 0.3:
+            return EqRes(eqr.randrange(3))
+        if x > 0.9:
+            return FalsyRes()
+        return Res()
+    objs = [mkobj() for _ in range(case["nres"])]
     ids = {id(x): i for i, x in enumerate(objs)}
     lines, obs, fails = ["case"], [], []
     stats = {"ops": 0, "refused": 0, "inserted_not_last": 0, "win": 0, "dense": 0, "anon": 0,
@@ -629,6 +664,24 @@ def run_impl(case):
             if owner != dec:
                 a = next(k for k in range(len(owner)) if owner[k] != dec[k])
                 fails.append(("C03", f"decode_address({a}) = {dec[a]} but all_resources() says {owner[a]}", len(obs)))
+        elif kind == "probes":
+            # large address spaces cannot be swept: decode at and around every reported boundary instead
+            _, h = op
+            m = maps[h]
+            try:
+                infos = list(m.all_resources())
+            except AssertionError:
+                continue
+            pts = set()
+            for i in infos[:40]:
+                pts |= {i.start, i.end - 1, i.end, max(0, i.start - 1), (i.start + i.end) // 2}
+            for a in sorted(p_ for p_ in pts if 0 <= p_ < (1 << m.addr_width)):
+                d = m.decode_address(a)
+                emit(f"decode {h} {a}", "decode " + ("-" if d is None else str(ids[id(d)])))
+                own = [i for i in infos if i.start <= a < i.end]
+                if (d is None) != (not own) or (own and d is not own[0].resource):
+                    fails.append(("C03", f"decode_address({a}) = {'-' if d is None else ids[id(d)]} but all_resources() says "
+                                         f"{[ids[id(i.resource)] for i in own]}", len(obs)))
         elif kind == "find":
             _, h, rid = op
             m = maps[h]
